@@ -253,17 +253,13 @@ impl StringPool {
     /// Decrements the refcount of a string in the pool.
     pub fn decref(&mut self, string_ref: StringRef) {
         let index = string_ref.index();
-        if index >= self.strings.len() {
-            panic!(
-                "decref: string_ref {} invalid, pool has only {} entries",
-                string_ref.number(),
-                self.strings.len()
-            );
+        // A reference that points past the end of the pool, or at an entry
+        // that is already unused, can only come from a damaged file (`get`
+        // reads such a reference as ""); there is nothing to release then.
+        if index >= self.strings.len() || self.strings[index].1 < 1 {
+            return;
         }
         let (ref mut string, ref mut refcount) = self.strings[index];
-        if *refcount < 1 {
-            panic!("decref: string refcount is already zero");
-        }
         self.is_modified = true;
         *refcount -= 1;
         if *refcount == 0 {
